@@ -1472,20 +1472,73 @@ theorem graphRec_correct (D : List Quad) (hD : DataNodup D) {x : Str} {p : GP} (
     rw [this]
     exact List.forall₂_map_right_iff.2 a3
 
-/-- **GRAPH ?x { P }** with at least one named graph in the dataset -/
-theorem graph_var_correct (D : List Quad) (hD : DataNodup D) (hN : (graphNameSet D).isEmpty = false)
+/-- `ExecState::graph` answers `GRAPH ?g` over a dataset without named graphs with no solution
+(regenerated from exec.rs: commit d984918 and later) -/
+theorem graphEmptyFixed_true : Gen.SparqlDispatch.graphEmptyFixed = true := rfl
+
+theorem inner_vars_sub (D : List Quad) {x : Str} {p : GP} (hp : Inner x p) :
+    ∀ gm r, select D p gm none = .ok r → ∀ y, y ∈ r.vars → y ∈ inScope p := by
+  induction hp with
+  | bgp ps =>
+    intro gm r h y hy
+    simp only [select, Sparql.bgp] at h
+    split at h
+    · cases h
+    · cases h
+      simpa [populateVariables, inScope] using hy
+  | @union l r' hl hr ihl ihr =>
+    intro gm r h y hy
+    obtain ⟨a, ha⟩ := inner_select_ok D hl gm none
+    obtain ⟨c, hc⟩ := inner_select_ok D hr gm none
+    rw [select_union_ok ha hc] at h
+    cases h
+    simp only [List.mem_append, List.mem_filter] at hy
+    simp only [inScope, List.mem_append]
+    rcases hy with hy | hy
+    · exact Or.inl (ihl gm a ha y hy)
+    · exact Or.inr (ihr gm c hc y hy.1)
+  | @filter p e _ _ hi ih =>
+    intro gm r h y hy
+    obtain ⟨a, ha⟩ := inner_select_ok D hi gm none
+    rw [select_filter_ok e ha] at h
+    cases h
+    exact ih gm a ha y hy
+  | @graphIri p n _ ih =>
+    intro gm r h y hy
+    simp only [select] at h
+    simpa [inScope] using ih _ r h y hy
+
+/-- **GRAPH ?x { P }**: pre-binding `?x` per (de-duplicated) graph name = the algebra's union of joins;
+over a dataset without named graphs both give no solution.  The variable list is that of the
+algebra whenever the dataset has a named graph (otherwise it is the probe's, without `?x`). -/
+theorem graph_var_correct (D : List Quad) (hD : DataNodup D)
     {x : Str} {p : GP} (hp : Inner x p) (g : Option Term) :
     ∃ r Ω, select D (.graph (.var x) p) [g] none = .ok r ∧
       eval D (.graph (.var x) p) (activeGraph D [g]) = .ok Ω ∧
-      List.Forall₂ RelRow r.rows Ω ∧ ∀ y, y ∈ r.vars ↔ y ∈ inScope (.graph (.var x) p) := by
+      List.Forall₂ RelRow r.rows Ω ∧ (∀ y, y ∈ r.vars → y ∈ inScope (.graph (.var x) p)) ∧
+      ((graphNameSet D).isEmpty = false → ∀ y, y ∈ r.vars ↔ y ∈ inScope (.graph (.var x) p)) := by
   obtain ⟨r, Ω, h1, h2, h3, h4⟩ := graphRec_correct D hD hp (graphNameSet D)
   obtain ⟨r₀, h0⟩ := inner_select_ok D hp [] none
-  have hne : graphNameSet D ≠ [] := by intro h; rw [h] at hN; simp at hN
-  refine ⟨r, Ω, ?_, ?_, h3, ?_⟩
-  · simp only [select, Option.bind_none, h0, hN]
-    exact h1
-  · rw [eval_graph_var]; exact h2
-  · intro y; rw [h4 hne y]; simp [inScope]
+  cases hN : (graphNameSet D).isEmpty with
+  | true =>
+    have hnil : graphNameSet D = [] := by simpa using hN
+    refine ⟨{ vars := r₀.vars, rows := [] }, [], ?_, ?_, List.Forall₂.nil, ?_, fun h => by cases h⟩
+    · simp only [select, Option.bind_none, h0, hN, graphEmptyFixed_true, if_true]
+      rfl
+    · rw [eval_graph_var]
+      have : graphNames D = [] := hnil
+      rw [this]; rfl
+    · intro y hy
+      simp only [inScope, List.mem_cons]
+      exact Or.inr (inner_vars_sub D hp [] r₀ h0 y hy)
+  | false =>
+    have hne : graphNameSet D ≠ [] := by intro h; rw [h] at hN; simp at hN
+    have hv : ∀ y, y ∈ r.vars ↔ y ∈ inScope (.graph (.var x) p) := by
+      intro y; rw [h4 hne y]; simp [inScope]
+    refine ⟨r, Ω, ?_, ?_, h3, fun y hy => (hv y).1 hy, fun _ => hv⟩
+    · simp only [select, Option.bind_none, h0, hN]
+      exact h1
+    · rw [eval_graph_var]; exact h2
 
 
 /-! ### group graph patterns: the theorem -/
@@ -1566,7 +1619,8 @@ theorem body_correct (D : List Quad) (hD : DataNodup D) {N : Prop} (hN : N → (
   | @graphVar p x hn hi =>
     intro g
     left
-    exact graph_var_correct D hD (hN hn) hi g
+    obtain ⟨r, Ω, a1, a2, a3, _, a5⟩ := graph_var_correct D hD hi g
+    exact ⟨r, Ω, a1, a2, a3, a5 (hN hn)⟩
 
 /-! ### solution modifiers -/
 
@@ -1700,6 +1754,9 @@ theorem forall2_map_eq {α β γ : Type} (R : α → β → Prop) (f : α → γ
 inductive Proj (N : Prop) : GP → Prop
   | mk {p : GP} (xs : List Str) : Body N p → Proj N (.project p xs)
   | ord {p : GP} (xs : List Str) : Body N p → Proj N (.project (.orderBy p) xs)
+  /-- `SELECT .. { GRAPH ?x { P } }`: needs no named graph in the dataset -/
+  | graph {p : GP} (x : Str) (xs : List Str) : Inner x p → Proj N (.project (.graph (.var x) p) xs)
+  | graphOrd {p : GP} (x : Str) (xs : List Str) : Inner x p → Proj N (.project (.orderBy (.graph (.var x) p)) xs)
 
 /-- the solution modifiers spargebra puts on top: `Slice? (Distinct? (Project (OrderBy? body)))` -/
 inductive Top (N : Prop) : GP → Prop
@@ -1760,6 +1817,16 @@ theorem proj_correct (D : List Quad) (hD : DataNodup D) {N : Prop} (hN : N → (
       refine ⟨_, _, select_project_ok xs (select_orderBy.trans a1), eval_project_ok xs (eval_orderBy.trans a2), rfl, ?_⟩
       exact List.forall₂_map_right_iff.2 (List.Forall₂.imp (fun b μ h => relX_project xs h) a3)
     · right; exact ⟨x, select_project_err xs (select_orderBy.trans a1), eval_project_err xs (eval_orderBy.trans a2)⟩
+  | @graph p x xs hi =>
+    obtain ⟨r, Ω, a1, a2, a3, _⟩ := graph_var_correct D hD hi g
+    left
+    refine ⟨_, _, select_project_ok xs a1, eval_project_ok xs a2, rfl, ?_⟩
+    exact List.forall₂_map_right_iff.2 (List.Forall₂.imp (fun b μ h => relX_project xs h) a3)
+  | @graphOrd p x xs hi =>
+    obtain ⟨r, Ω, a1, a2, a3, _⟩ := graph_var_correct D hD hi g
+    left
+    refine ⟨_, _, select_project_ok xs (select_orderBy.trans a1), eval_project_ok xs (eval_orderBy.trans a2), rfl, ?_⟩
+    exact List.forall₂_map_right_iff.2 (List.Forall₂.imp (fun b μ h => relX_project xs h) a3)
 
 theorem top_correct (D : List Quad) (hD : DataNodup D) {N : Prop} (hN : N → (graphNameSet D).isEmpty = false)
     {p : GP} (hp : Top N p) : ∀ g, TopOutcome D p g := by
@@ -1898,6 +1965,31 @@ inductive TermLevel : Expr → Prop
   | isBlank {a : Expr} : Atom a → TermLevel (.call .isBlank a)
   | isLiteral {a : Expr} : Atom a → TermLevel (.call .isLiteral a)
   | not {e : Expr} : TermLevel e → TermLevel (.not e)
+  | or {a b : Expr} : TermLevel a → TermLevel b → TermLevel (.or a b)
+  | and {a b : Expr} : TermLevel a → TermLevel b → TermLevel (.and a b)
+
+/-- the engine folds an operand's evaluation error into the truth table of `||` / `&&`
+(regenerated from expression.rs: commit e4da433 and later) -/
+theorem orAndLenient_true : Gen.SparqlDispatch.orAndLenient = true := rfl
+
+/-- the `match (lhs, rhs)` of the `Or` / `And` arms are the truth tables of §17.2 -/
+theorem orTable_eq_or3 (a b : Option Bool) : orTable a b = or3 a b := by
+  cases a with
+  | none => cases b with
+    | none => rfl
+    | some y => cases y <;> rfl
+  | some x => cases x <;> cases b with
+    | none => rfl
+    | some y => cases y <;> rfl
+
+theorem andTable_eq_and3 (a b : Option Bool) : andTable a b = and3 a b := by
+  cases a with
+  | none => cases b with
+    | none => rfl
+    | some y => cases y <;> rfl
+  | some x => cases x <;> cases b with
+    | none => rfl
+    | some y => cases y <;> rfl
 
 theorem atom_eval {a : Expr} (ha : Atom a) {b : Binding} {μ : Mu} (h : RelRow b μ) :
     ∃ ot : Option Term, Sparql.evalExpr b a = ot.map ER.term ∧ SparqlSpec.evalExpr μ a = ot := by
@@ -1949,6 +2041,22 @@ theorem termLevel_eval {e : Expr} (he : TermLevel e) {b : Binding} {μ : Mu} (h 
     refine ⟨o.map (!·), ?_, ?_⟩
     · simp only [Sparql.evalExpr, i1]; cases o <;> simp [isTruthy_erBool]
     · simp only [SparqlSpec.evalExpr, i2]; cases o <;> simp [ebv_boolTerm]
+  | or _ _ iha ihb =>
+    obtain ⟨oa, a1, a2⟩ := iha
+    obtain ⟨ob, b1, b2⟩ := ihb
+    refine ⟨or3 oa ob, ?_, ?_⟩
+    · simp only [Sparql.evalExpr, orAndLenient_true, if_true, a1, b1, orTable_eq_or3]
+      cases oa <;> cases ob <;> simp [isTruthy_erBool]
+    · simp only [SparqlSpec.evalExpr, a2, b2]
+      cases oa <;> cases ob <;> simp [ebv_boolTerm]
+  | and _ _ iha ihb =>
+    obtain ⟨oa, a1, a2⟩ := iha
+    obtain ⟨ob, b1, b2⟩ := ihb
+    refine ⟨and3 oa ob, ?_, ?_⟩
+    · simp only [Sparql.evalExpr, orAndLenient_true, if_true, a1, b1, andTable_eq_and3]
+      cases oa <;> cases ob <;> simp [isTruthy_erBool]
+    · simp only [SparqlSpec.evalExpr, a2, b2]
+      cases oa <;> cases ob <;> simp [ebv_boolTerm]
 
 /-- on term-level expressions the two expression evaluators agree -/
 theorem exprOK_termLevel {e : Expr} (he : TermLevel e) : ExprOK e := by
